@@ -429,7 +429,8 @@ class Inliner(object):
         gcall = top.args[0]
         callee = self._callee(gcall, fn)
         if callee is not None and callee.key not in stack and self._simple(callee, gcall, generator=True) and \
-           not any(isinstance(x, ast.Return) for x in walk_no_nested(callee.node, include_self=False)):
+           (not any(isinstance(x, ast.Return) for x in walk_no_nested(callee.node, include_self=False)) or
+            _returns_leave_only_loop(callee.node)):
           self._k += 1
           tmp = '__gl%d' % self._k
           pre = ast.Assign(targets=[ast.Name(id=tmp, ctx=ast.Store())],
@@ -450,8 +451,9 @@ class Inliner(object):
       gcall = s.value.args[0]
       callee = self._callee(gcall, fn)
       lst = s.targets[0].id
+      ret_break = callee is not None and any(isinstance(x, ast.Return) for x in walk_no_nested(callee.node, include_self=False))
       if callee is not None and callee.key not in stack and self._simple(callee, gcall, generator=True) and \
-         not any(isinstance(x, ast.Return) for x in walk_no_nested(callee.node, include_self=False)) and \
+         (not ret_break or _returns_leave_only_loop(callee.node)) and \
          not any(isinstance(x, ast.Name) and x.id == lst for x in ast.walk(gcall)):
         ys = [x for x in walk_no_nested(callee.node, include_self=False) if isinstance(x, (ast.Yield, ast.YieldFrom))]
         stmt_ys = [st for st in walk_no_nested(callee.node, include_self=False) if isinstance(st, ast.Expr) and isinstance(st.value, ast.Yield)]
@@ -465,6 +467,9 @@ class Inliner(object):
                   return ast.copy_location(ast.Expr(value=ast.Call(
                     func=ast.Attribute(value=ast.Name(id=lst, ctx=ast.Load()), attr='append', ctx=ast.Load()), args=[val], keywords=[])), n)
                 return n
+
+              def visit_Return(self, n):
+                return ast.copy_location(ast.Break(), n) if ret_break else n      # the generator is one loop: returning leaves it
 
               def visit_FunctionDef(self, n):
                 return n
@@ -1454,6 +1459,27 @@ def _plain_element(e):
   return False
 
 
+def _factory_row(e, module):
+  """a table row some of whose cells are `factory(<constants>)` with a module-level closure factory (a function that only
+  defines one inner function / lambda and returns it): building the closure has no effect, so the cell may be written where
+  the loop variable stood (once per row: each row is used once)."""
+  if module is None:
+    return False
+  if isinstance(e, (ast.Tuple, ast.List)):
+    return all(_plain_element(x) or _factory_row(x, module) for x in e.elts)
+  if isinstance(e, ast.Call) and isinstance(e.func, ast.Name) and not e.keywords and all(isinstance(a, ast.Constant) for a in e.args):
+    fs = module.functions.get(e.func.id)
+    if not fs or len(fs) != 1 or isinstance(fs[0].node, ast.Lambda):
+      return False
+    body = [st for st in fs[0].node.body if not (isinstance(st, ast.Expr) and isinstance(st.value, ast.Constant))]
+    if len(body) == 2 and isinstance(body[0], ast.FunctionDef) and isinstance(body[1], ast.Return) and \
+       isinstance(body[1].value, ast.Name) and body[1].value.id == body[0].name:
+      return True
+    if len(body) == 1 and isinstance(body[0], ast.Return) and isinstance(body[0].value, ast.Lambda):
+      return True
+  return False
+
+
 _FORM_K = [0]
 
 
@@ -1684,7 +1710,7 @@ def _literal_table(block, i, module, fn=None):
     return out
   else:
     return None
-  if not (0 < len(lit.elts) <= MAX_UNROLL) or not all(_plain_element(e) for e in lit.elts):
+  if not (0 < len(lit.elts) <= MAX_UNROLL) or not all(_plain_element(e) or _factory_row(e, module) for e in lit.elts):
     return None
   return list(lit.elts)
 
@@ -2314,6 +2340,33 @@ def load_program(root=None, overlay=None, inline=True):
   return repo1, Types(repo1)
 
 
+def _is_mixin(repo, module, B):
+  """a class of this module without __init__ and without repo/external bases other than object (or other mixins), whose name
+  is used only in the base lists of other classes: it is never instantiated on its own"""
+  if '__init__' in B.methods or not repo.subclasses(B):
+    return False
+  for b in repo.mro(B)[1:]:
+    if isinstance(b, tuple):
+      if b[1] != 'object':
+        return False
+    elif not _is_mixin_base(repo, module, b):
+      return False
+  bases = {id(y) for m2 in repo.modules.values() for c_ in ast.walk(m2.tree) if isinstance(c_, ast.ClassDef) for x in c_.bases for y in ast.walk(x)}
+  own = {id(x) for x in ast.walk(B.node)}
+  for m_ in repo.modules.values():
+    for x in ast.walk(m_.tree):
+      if id(x) in bases or id(x) in own:
+        continue
+      if (isinstance(x, ast.Name) and x.id == B.name and isinstance(x.ctx, ast.Load)) or \
+         (isinstance(x, ast.Attribute) and x.attr == B.name) or (isinstance(x, ast.alias) and x.name == B.name):
+        return False
+  return True
+
+
+def _is_mixin_base(repo, module, b):
+  return '__init__' not in b.methods and all(isinstance(x, tuple) and x[1] == 'object' for x in repo.mro(b)[1:])
+
+
 def _specialise(repo):
   """Template methods: a method m that class C inherits from a base B of the same module, and that calls a hook
   `self.h(...)` which C (or a class between B and C) defines or overrides, is copied into C - exactly what
@@ -2330,8 +2383,18 @@ def _specialise(repo):
       for B in mro[1:]:
         if isinstance(B, tuple) or B.module is not m:
           continue
+        mixin = B.name in C.base_names and _is_mixin(repo, m, B)          # folded into the class that lists it
         for name, meth in B.methods.items():
           if name in C.methods or repo.find_method(C, name) is not meth or isinstance(meth.node, ast.Lambda):
+            continue
+          if not mixin and B.name not in C.base_names and _is_mixin(repo, m, B):
+            continue          # reaches C through the class that lists the mixin
+          if mixin:
+            # a mixin exists to be folded into the classes that list it: all of its methods (properties included) are
+            # analysed as methods of the class that uses them
+            if not any((isinstance(x, ast.Name) and x.id == 'super') or
+                       (isinstance(x, ast.Attribute) and x.attr.startswith('__') and not x.attr.endswith('__')) for x in ast.walk(meth.node)):
+              added.append((C, meth, ['<mixin %s>' % B.name]))
             continue
           if meth.is_property or any(d not in ('staticmethod', 'classmethod') for d in meth.decorators) or meth.is_staticmethod:
             continue
@@ -2366,6 +2429,19 @@ def _specialise(repo):
             delattr(x, a)
       cp._specialised_from = meth.key
       cn.body.append(cp)
+    # a mixin method that was folded into the classes listing the mixin no longer exists on its own (the mixin is never
+    # instantiated): it leaves the mixin's body, so that nothing is analysed twice or out of its class's context
+    folded = {}
+    for C, meth, poly in added:
+      if poly and poly[0].startswith('<mixin '):
+        folded.setdefault((meth.cls.node.name, meth.cls.node.lineno), set()).add((meth.node.name, meth.node.lineno))
+    for key, names in folded.items():
+      cn = cls_nodes.get(key)
+      if cn is None:
+        continue
+      cn.body = [st for st in cn.body if not (isinstance(st, (ast.FunctionDef, ast.AsyncFunctionDef)) and (st.name, st.lineno) in names)]
+      if not cn.body:
+        cn.body = [ast.copy_location(ast.Pass(), cn)]
     out[m.relpath] = tree
   return out
 
